@@ -64,6 +64,34 @@ theorem Forward_DecodeMsg_is_model (recv : Forward) (b : Bytes) :
     run ForwardF .stream Forward_DecodeMsg recv b = Forward.unmarshal .stream recv b := by
   simp only [Forward_DecodeMsg, ForwardF, Forward.unmarshal]; sk_stream
 
+/-! ### msgp-generated tuple decoders (`Entry`, `EntryExt`, `Ping`, `Pong`): the receiver's old field values do not
+show in the result, because every field is assigned before the function returns successfully -/
+
+theorem Entry_UnmarshalMsg_is_model (recv : Entry) (b : Bytes) :
+    run EntryF .bytes Entry_UnmarshalMsg recv b = Entry.unmarshal .bytes recv b := by
+  simp only [Entry_UnmarshalMsg, EntryF, Entry.unmarshal]; sk_slice
+theorem Entry_DecodeMsg_is_model (recv : Entry) (b : Bytes) :
+    run EntryF .stream Entry_DecodeMsg recv b = Entry.unmarshal .stream recv b := by
+  simp only [Entry_DecodeMsg, EntryF, Entry.unmarshal]; sk_slice
+theorem EntryExt_UnmarshalMsg_is_model (recv : EntryExt) (b : Bytes) :
+    run EntryExtF .bytes EntryExt_UnmarshalMsg recv b = EntryExt.unmarshal .bytes recv b := by
+  simp only [EntryExt_UnmarshalMsg, EntryExtF, EntryExt.unmarshal]; sk_slice
+theorem EntryExt_DecodeMsg_is_model (recv : EntryExt) (b : Bytes) :
+    run EntryExtF .stream EntryExt_DecodeMsg recv b = EntryExt.unmarshal .stream recv b := by
+  simp only [EntryExt_DecodeMsg, EntryExtF, EntryExt.unmarshal]; sk_slice
+theorem Ping_UnmarshalMsg_is_model (recv : Ping) (b : Bytes) :
+    run PingF .bytes Ping_UnmarshalMsg recv b = Ping.unmarshal .bytes recv b := by
+  simp only [Ping_UnmarshalMsg, PingF, Ping.unmarshal]; sk_slice
+theorem Ping_DecodeMsg_is_model (recv : Ping) (b : Bytes) :
+    run PingF .stream Ping_DecodeMsg recv b = Ping.unmarshal .stream recv b := by
+  simp only [Ping_DecodeMsg, PingF, Ping.unmarshal]; sk_slice
+theorem Pong_UnmarshalMsg_is_model (recv : Pong) (b : Bytes) :
+    run PongF .bytes Pong_UnmarshalMsg recv b = Pong.unmarshal .bytes recv b := by
+  simp only [Pong_UnmarshalMsg, PongF, Pong.unmarshal]; sk_slice
+theorem Pong_DecodeMsg_is_model (recv : Pong) (b : Bytes) :
+    run PongF .stream Pong_DecodeMsg recv b = Pong.unmarshal .stream recv b := by
+  simp only [Pong_DecodeMsg, PongF, Pong.unmarshal]; sk_slice
+
 /-- the statement language is not vacuous: a statement the translator does not understand, a field of another type
 and a missing return all make `run` panic, so none of the equalities above could hold for such a body -/
 example : run MessageF .bytes [.unknown "x"] {} [] = .panic "statement not understood by the translator: x" := rfl
